@@ -361,7 +361,21 @@ def registry_hook(ctx, rng):
                 def fac(o, tag=(r.__name__, t.__name__), ret=ret):
                     return ('adapted', tag, id(o)) if ret else None
                 (reg if base is None or rng.random() < 0.5 else base).register([r], t, '', fac)
+            other = type(reg)()
+            for _r in range(rng.randint(1, 3)):
+                r, t = rng.choice(R), rng.choice(T)
+                other.register([r], t, '', (lambda o, tag=('other', r.__name__, t.__name__): ('adapted', tag, id(o))))
             for _q in range(12):
+                if rng.random() < 0.25:
+                    # the registry whose hook was installed at the start gets other bases (and back), or loses a
+                    # registration: the installed hook keeps speaking for the registry as it is now
+                    if rng.random() < 0.6:
+                        cur = reg.__bases__
+                        reg.__bases__ = (other,) if other not in cur else ((base,) if base is not None else ())
+                        ctx.count('registry_hook_rebasings')
+                    else:
+                        r_, t_ = rng.choice(R), rng.choice(T)
+                        reg.unregister([r_], t_, '')
                 if base is not None and rng.random() < 0.5:
                     # something changes above the registry whose hook is installed; then queryAdapter() is asked
                     # *first* (warm cache), the interface call second - they must agree
